@@ -57,6 +57,10 @@ pub fn run(ctx: &mut Ctx, c: Campaign) {
         }
         // libFuzzer: -seed=0 means random, so remap
         let seed = ((super::mix_seed(ctx.seed, c.target, j as u64) % 0x7fff_fffe) + 1) as u32;
+        // stderr goes to a file, not a pipe: the jobs print a status line for every new input, and a full pipe that
+        // is only drained when its turn comes would make the eight jobs run one after the other
+        let logpath = hd.join("fuzz/corpus").join(format!("{}-{}-{}.log", c.target, ctx.seed, j));
+        let logfile = std::fs::File::create(&logpath);
         let child = Command::new(&bin)
             .arg(&corpus)
             .arg(format!("-runs={}", c.runs_per_job))
@@ -71,15 +75,18 @@ pub fn run(ctx: &mut Ctx, c: Campaign) {
             .env("ASAN_OPTIONS", "detect_leaks=0:abort_on_error=1")
             .stdin(Stdio::null())
             .stdout(Stdio::null())
-            .stderr(Stdio::piped())
+            .stderr(match logfile {
+                Ok(f) => Stdio::from(f),
+                Err(_) => Stdio::piped(),
+            })
             .spawn();
-        children.push((j, corpus, child));
+        children.push((j, corpus, child, logpath));
     }
     let mut total_execs: u64 = 0;
     let mut cov_max: u64 = 0;
     let mut ft_max: u64 = 0;
     let mut corpus_files: u64 = 0;
-    for (j, corpus, child) in children {
+    for (j, corpus, child, logpath) in children {
         let child = match child {
             Ok(c) => c,
             Err(e) => {
@@ -92,7 +99,11 @@ pub fn run(ctx: &mut Ctx, c: Campaign) {
             Ok(o) => o,
             Err(_) => continue,
         };
-        let err = String::from_utf8_lossy(&out.stderr).to_string();
+        let mut err = String::from_utf8_lossy(&out.stderr).to_string();
+        if let Ok(t) = std::fs::read(&logpath) {
+            err.push_str(&String::from_utf8_lossy(&t));
+        }
+        let _ = std::fs::remove_file(&logpath);
         let mut execs = 0u64;
         for l in err.lines() {
             if let Some(r) = l.strip_prefix("stat::number_of_executed_units:") {
